@@ -8,7 +8,7 @@ from .c01 import dedup_names
 RULE = ("case = (generated 3D plotfile spec with scattered layouts, recipe out of {one-component .py recipe, two-component .py "
         "recipe, callable recipe, .py recipe with solution array, built-in HRR / ENT / SRi / SDi / RRi on a 21-species synthetic "
         "plotfile with tiny boxes and cells at T=0 / sum(Y)=0}, kept-field list (none, subset, reordered, unknown names), serial "
-        "or pool with a start order); output parsed by the oracle and tasted; new components compared with the recipe evaluated "
+        "or pool with a start order; thermochemical cooks follow each other in one process at different pressures); output parsed by the oracle and tasted; new components compared with the recipe evaluated "
         "by the oracle on the input box (Cantera evaluated independently per cell, rtol 1e-9), kept components bit for bit, "
         "names by position, min/max rows with the extrema of the written data, layout with the Lean record-level model; "
         "non-trivial = kept fields given or non-monotone layout or built-in recipe")
@@ -100,17 +100,25 @@ def cantera_expected(arr, names, recipe, species=None, reactions=None, pressure=
     return out
 
 
-def run_case(ctx, rep, spec, recipe, kept, serial, model, start=None, species=None, reactions=None):
+LAST = []      # the previous thermochemical cook of this process (module state of the tool survives between Chef objects)
+
+
+def run_case(ctx, rep, spec, recipe, kept, serial, model, start=None, species=None, reactions=None, pressure=1.0, check=True):
     from amr_kitchen.chef.chef import Chef
     path = ctx.newdir("c11in_")
     truth = plotgen.materialize(spec, path)
     P = oracle.parse(path)
     names = dedup_names(spec["fields"])
     out = ctx.newdir("c11out_")
-    case = {"spec": spec, "recipe": recipe, "kept": kept, "serial": serial, "species": species, "reactions": reactions}
+    case = {"spec": spec, "recipe": recipe, "kept": kept, "serial": serial, "species": species, "reactions": reactions,
+            "pressure": pressure}
     feats = plotgen.describe(spec)
     builtin = recipe in ("HRR", "ENT", "SRi", "SDi", "RRi")
-    rep.case({"s": spec, "r": recipe, "k": kept, "ser": serial, "sp": species, "rx": reactions},
+    if builtin or recipe == "rec3":
+        case["previous"] = list(LAST)
+        LAST[:] = [{k: v for k, v in case.items() if k != "previous"}]
+        rep.count(f"pressure:{pressure}")
+    rep.case({"s": spec, "r": recipe, "k": kept, "ser": serial, "sp": species, "rx": reactions, "P": pressure},
              nontrivial=(kept is not None or "nonmonotone" in feats or builtin))
     rep.count("recipe:" + recipe); rep.count("kept" if kept else "no-kept"); rep.count("serial" if serial else "pool")
     kept_names = [f for f in (kept.split() if kept else []) if f in names]
@@ -134,19 +142,21 @@ def run_case(ctx, rep, spec, recipe, kept, serial, model, start=None, species=No
     elif recipe == "rec3":
         rp = os.path.join(ctx.scratch, f"rec3_{ctx._n}.py"); open(rp, "w").write(REC3)
         rec, new_names = rp, ["cpmass"]
-        kw = dict(mech=MECH, pressure=1.0)
-        fn = lambda arr: cantera_expected(arr, names, "cpmass")
+        kw = dict(mech=MECH, pressure=pressure)
+        fn = lambda arr: cantera_expected(arr, names, "cpmass", pressure=pressure)
     else:
         rec = recipe
-        kw = dict(mech=MECH, pressure=1.0, species=species, reactions=reactions)
+        kw = dict(mech=MECH, pressure=pressure, species=species, reactions=reactions)
         prefix = {"HRR": "HeatRelease", "ENT": "Enthalpy", "SRi": "IRm", "RRi": "R", "SDi": "DI"}[recipe]
         new_names = [f"{prefix}({s})" for s in species] if species else ([f"{prefix}{r}" for r in reactions] if reactions else [prefix])
-        fn = lambda arr: cantera_expected(arr, names, recipe, species, reactions)
+        fn = lambda arr: cantera_expected(arr, names, recipe, species, reactions, pressure=pressure)
     try:
         with alarm(300), quiet(), pools.controlled(start=start):
             Chef(plotfile=path, recipe=rec, outfile=out, kept_fields=kept, serial=serial, **kw).cook()
     except Exception as e:
         rep.fail(f"chef raised {type(e).__name__}: {e}", case)
+        return
+    if not check:
         return
     good, r = tastelib.real_taste(out)
     try:
@@ -227,11 +237,16 @@ def run(ctx, rep, model=True):
         spec = species_spec(ctx.rng, nlev=[1, 2][i % 2])
         recipe, kept, sp, rx = combos[i % len(combos)]
         run_case(ctx, rep, spec, recipe, kept, serial=(i % 2 == 0), model=model, species=sp, reactions=rx,
-                 start=[None, pools.order_reversed][i % 2])
+                 start=[None, pools.order_reversed][i % 2], pressure=[1.0, 3.0, 0.5, 1.0, 2.0][i % 5])
         if len(rep.violations) >= 10:
             return
 
 
 def replay(ctx, rep, obj, model=True):
     c = obj["case"]
-    run_case(ctx, rep, c["spec"], c["recipe"], c["kept"], c["serial"], model, species=c.get("species"), reactions=c.get("reactions"))
+    for h in c.get("previous") or []:
+        # the cook that preceded the failing one in the same process
+        run_case(ctx, rep, h["spec"], h["recipe"], h["kept"], h["serial"], False, species=h.get("species"),
+                 reactions=h.get("reactions"), pressure=h.get("pressure", 1.0), check=False)
+    run_case(ctx, rep, c["spec"], c["recipe"], c["kept"], c["serial"], model, species=c.get("species"), reactions=c.get("reactions"),
+             pressure=c.get("pressure", 1.0))
